@@ -34,7 +34,8 @@ RULE = (
     "algebraic laws. Oracle = a reference type checker (props/c14.py:model): constructor accepts iff the model "
     "accepts (ValueError otherwise); required_keys / output_keys equal the model's; application to a dictionary with "
     "each of the other key sets raises ValueError; a term the model types is applied to integer-valued inputs and "
-    "yields exactly the declared keys and the model's dictionary type (least common ancestor); (a<<b)<<c vs "
+    "yields exactly the declared keys and the model's dictionary type (least common ancestor); every dictionary returned by "
+    "any successful application must itself satisfy its type's shape rules (independent reference predicate); (a<<b)<<c vs "
     "a<<(b<<c), a|b vs b|a, (a|b)|c vs a|(b|c) vs Conjunction([a,b,c]) agree in acceptance, interface, result type, "
     "result values (bitwise) and .grad side effects. Dictionary types: for each of the five types every 1- and "
     "2-entry dictionary over a universe of 6 key shapes x 20 value shapes is accepted iff the reference predicate "
@@ -162,6 +163,10 @@ def depth(term):
 # ------------------------------------------------------------------------------------------------
 
 
+class IllTyped(Exception):
+    """A transform returned a dictionary whose values contradict its own type."""
+
+
 def fresh_keys():
     return [torch.zeros(s, dtype=torch.float64, requires_grad=True) for s in KEY_SHAPES]
 
@@ -201,11 +206,31 @@ def make_input(keys, idxs, typ, salt=0):
     return Gradients(d) if typ == T_GRAD else Jacobians(d)
 
 
+def type_invariant_violation(res):
+    """Reference predicate (independent of the library's own checks): does this dictionary satisfy its type?"""
+    items = list(res.items())
+    if type(res) is EmptyTensorDict:
+        return "non-empty EmptyTensorDict" if items else None
+    if type(res) is Gradients:
+        bad = [(tuple(k.shape), tuple(v.shape)) for k, v in items if tuple(v.shape) != tuple(k.shape)]
+        return f"Gradients with (key shape, value shape) {bad}" if bad else None
+    if type(res) is Jacobians:
+        firsts = {tuple(v.shape)[:1] for _, v in items}
+        bad = [(tuple(k.shape), tuple(v.shape)) for k, v in items if v.ndim < 1 or tuple(v.shape)[1:] != tuple(k.shape)]
+        if bad:
+            return f"Jacobians with (key shape, value shape) {bad}"
+        return f"Jacobians with different first dimensions {sorted(firsts)}" if len(firsts) > 1 else None
+    return None
+
+
 def apply_and_observe(tr, keys, m, in_type):
     """Applies to a well-keyed input; returns (type name, {key index: value tensor}, {key index: grad}) or raises."""
     for k in keys:
         k.grad = None
     res = tr(make_input(keys, m["req"], in_type))
+    bad = type_invariant_violation(res)
+    if bad is not None:
+        raise IllTyped(bad)
     tname = next((n for n, c in TYPES.items() if type(res) is c), type(res).__name__)
     idx = {id(k): i for i, k in enumerate(keys)}
     vals = {idx[id(k)]: v for k, v in res.items()}
@@ -466,6 +491,9 @@ def _check_term(term, out):
         want = m["typ"]((it, 3 if it == T_JAC else None))
         try:
             tname, vals, grads = apply_and_observe(tr, keys, m, it)
+        except IllTyped as e:
+            out.check(False, "result-contradicts-its-dictionary-type", f"{term} on a {it} input returned {e}")
+            continue
         except Exception as e:  # noqa: BLE001
             out.check(want is None, "well-typed-application-raises", f"{term} on a {it} input: {type(e).__name__}: {str(e)[:120]}")
             continue
